@@ -45,35 +45,7 @@ def abs_diff(d):
             'deleted': [[a, list(ms)] for a, ms in d.deleted.items()]}
 
 
-def abs_real_mutation(mu):
-    """real mutation object -> model JSON (the inverse of sigs.real_mutation, for hinted lists)"""
-    from django_evolution import mutations as M
-    from django_evolution.placeholders import BasePlaceholder
-    t = type(mu).__name__
-
-    def init(v):
-        if v is None:
-            return None
-        if isinstance(v, BasePlaceholder) or callable(v):
-            return '"<<USER VALUE REQUIRED>>"'
-        return sigs.cv(v)
-    if t == 'AddField':
-        return {'t': t, 'model': mu.model_name, 'field': mu.field_name, 'ftype': mu.field_type.__name__,
-                'initial': init(mu.initial), 'attrs': [[k, sigs.cv(v)] for k, v in mu.field_attrs.items()]}
-    if t == 'ChangeField':
-        return {'t': t, 'model': mu.model_name, 'field': mu.field_name,
-                'ftype': mu.field_type.__name__ if mu.field_type else None,
-                'initial': init(mu.initial), 'attrs': [[k, sigs.cv(v)] for k, v in mu.field_attrs.items()]}
-    if t == 'DeleteField':
-        return {'t': t, 'model': mu.model_name, 'field': mu.field_name}
-    if t == 'DeleteModel':
-        return {'t': t, 'model': mu.model_name}
-    if t == 'ChangeMeta':
-        return sigs.model_mutation({'t': t, 'model': mu.model_name, 'prop': mu.prop_name, 'py_value': mu.new_value})
-    if t == 'RenameAppLabel':
-        return {'t': t, 'old': mu.old_app_label, 'new': mu.new_app_label, 'legacy': mu.legacy_app_label,
-                'models': None}
-    return {'t': t}
+abs_real_mutation = sigs.abs_mutation_obj
 
 
 def edit_new_sig(rng, new):
